@@ -22,8 +22,8 @@ def pulse_info(p) -> tuple:
     hit = _PULSE_CACHE.get(k)
     if hit is not None:
         return hit
-    a = arr(p.amplitude.samples)
-    d = arr(p.detuning.samples)
+    a = arr(p.amplitude.samples).copy()  # (a snapshot must not share memory with the object it describes)
+    d = arr(p.detuning.samples).copy()
     ph = float(arr(p.phase))
     pps = float(p.post_phase_shift)
     h = hashlib.sha1(a.tobytes() + b"|" + d.tobytes() + repr((ph, pps)).encode()).hexdigest()[:16]
@@ -34,6 +34,13 @@ def pulse_info(p) -> tuple:
         _KEEP.clear()
         _PULSE_CACHE.clear()
     return info
+
+
+def forget_pulses() -> None:
+    """Drop the cached pulse samples: the next snapshot reads every pulse again (used when the question is whether
+    an object that was already looked at has been modified in place since)."""
+    _KEEP.clear()
+    _PULSE_CACHE.clear()
 
 
 def tkey(targets) -> tuple:
